@@ -156,6 +156,7 @@ type G struct {
 	serial int
 	// per-flow generation state
 	resultNames []string
+	forceKind   string
 }
 
 func (g *G) uuid(kind int) string {
@@ -242,8 +243,10 @@ func (g *G) genEnv() {
 	if t.Chance("collation", 1, 6) {
 		s.Env.InputCollation = g.pick("collation_v", []string{"default", "confusables", "arabic_variants"})
 	}
-	if g.P.NumberFormat && t.Chance("numfmt", 1, 4) {
-		s.Env.NumberFormat = &J{"decimal_symbol": ",", "digit_grouping_symbol": "."}
+	if g.P.NumberFormat && t.Chance("numfmt", 1, 3) {
+		nf := []J{{"decimal_symbol": ",", "digit_grouping_symbol": "."}, {"decimal_symbol": ".", "digit_grouping_symbol": "'"},
+			{"decimal_symbol": ".", "digit_grouping_symbol": " "}, {"decimal_symbol": ",", "digit_grouping_symbol": " "}}[t.Pick("numfmt_v", 4)]
+		s.Env.NumberFormat = &nf
 	}
 }
 
